@@ -55,6 +55,12 @@ fn main() {
         "C04" => props::c04::run_c04(tier),
         "C05" => props::c04::run_c05(tier),
         "C06" => props::c06::run(tier),
+        "C10" => props::c10::run(tier),
+        "C11" => props::c11::run(tier),
+        "C12" => props::c12::run(tier),
+        "C13" => props::c13::run(tier),
+        "C17" => props::c17::run(tier),
+        "C19" => props::c19::run(tier),
         "C20" => props::c20::run(tier),
         _ => {
             eprintln!("unknown property {}", id);
